@@ -1,7 +1,7 @@
 From Coq Require Import List NArith ZArith Bool.
 From SK Require Import lib.LGraph lib.Mono.
 From SK Require model.C06_Model model.C11_Model.
-From SK Require Import model.C03_Model model.C05_Model proof.C05_Proof proof.C05_Glue proof.C05_Pipe proof.C05_Prep.
+From SK Require Import model.C03_Model model.C05_Model proof.C05_Proof proof.C05_Glue proof.C05_Pipe proof.C05_Prep proof.C05_Comp proof.C05_Main.
 From SK Require proof.C11_Dedup.
 Import ListNotations.
 
@@ -20,8 +20,9 @@ Proof. exact glue_equivariant. Qed.
 Print Assumptions C05_glue_equivariant.
 
 (** 2. Matching is equivariant.  (a) the verified enumerator that stands for VF2 (any labels, induced or not): the match
-    list of the relabelled problem is the transported match list, in the same order; (b) the raw matches of the exhaustive
-    strategy as SynReactor.mappings configures the engine; (c) the automorphisms of the rule used for pruning. *)
+    list of the relabelled problem is the transported match list, in the same order; (b) the raw matches of every strategy
+    (ALL / COMPONENT / BACKTRACK: connected components, per-component enumeration, length sort, back-tracking combination)
+    as SynReactor.mappings configures the engine; (c) the automorphisms of the rule used for pruning. *)
 Theorem C05_matches_equivariant :
   (forall (A B : Type) (sg pi : N -> N), inj pi ->
    forall (hn : list N) (pl hl pl' hl' : N -> A) (pe he pe' he' : N -> N -> option B)
@@ -30,16 +31,16 @@ Theorem C05_matches_equivariant :
      (forall p q, pe' (sg p) (sg q) = pe p q) -> (forall h k, he' (pi h) (pi k) = he h k) ->
      forall pn, monos (map sg pn) (map pi hn) pl' hl' pe' he' nm em induced
                 = map (mv sg pi) (monos pn hn pl hl pe he nm em induced)) /\
-  (forall (sg pi : N -> N), inj sg -> inj pi ->
+  (forall (strat : N) (sg pi : N -> N), inj sg -> inj pi ->
    forall (host : hostg) (pat : molg),
-     matches 0%N (relabel pi host) (relabel sg pat) = map (mv sg pi) (matches 0%N host pat)) /\
+     matches strat (relabel pi host) (relabel sg pat) = map (mv sg pi) (matches strat host pat)) /\
   (forall (sg : N -> N), inj sg ->
    forall rc : its, rule_auts (relabel sg rc) = map (mv sg sg) (rule_auts rc)).
 Proof.
   split; [|split].
   - intros A B sg pi Hpi hn pl hl pl' hl' pe he pe' he' nm em induced H1 H2 H3 H4 pn.
     exact (monos_equiv A B sg pi Hpi hn pl hl pl' hl' pe he pe' he' nm em induced H1 H2 H3 H4 pn).
-  - exact matches_all_relabel.
+  - exact matches_relabel.
   - exact rule_auts_relabel.
 Qed.
 Print Assumptions C05_matches_equivariant.
@@ -93,44 +94,44 @@ Print Assumptions C05_prune_sound.
     as a set up to isomorphism, the results of (host, tpl); composed with the RDKit contract (isomorphic ITS graphs
     serialise to equal standardised strings; rewritten SMILES parse to isomorphic graphs) this is the invariance of the
     set of distinct reactions.
-    PROVED (this theorem): exhaustive strategy, prepared rule whose pattern has no explicit X-H bond, renumbering that keeps
-    the insertion order — the glued graphs (and the result list without the _explicit_h stage) of the renumbered inputs
-    are literally the renumbered glued graphs, one for one and in the same order.
+    PROVED (this theorem): every strategy, prepared rule whose pattern has no explicit X-H bond, renumbering that keeps the
+    insertion order — the kept matches, the glued graphs and the result list (without the _explicit_h stage) of the
+    renumbered inputs are literally the renumbered ones, one for one and in the same order.  In particular nothing in
+    the pipeline looks at the numbers (no tie-break by node id, no anchor by smallest id: the defect repaired by aa7fe3c).
     MISSING: (i) insertion-order changes: the enumerator's result SET does not depend on the order (lib/Mono.v
     monos_spec) but the kept representative of a class does, so this needs "matches in one class glue to the same graph
-    up to list order" (C11 clause 4); (ii) COMPONENT/BACKTRACK: equivariance of the connected-component computation of
-    C06_Model (lib/Reach.v saturate); (iii) the explicit-hydrogen path: new hydrogen ids and h_pairs ids are allocated in
-    numeric order, so results are isomorphic, not literally renumbered; (iv) the RDKit half.  All four are exercised on
+    up to list order" (C11 clause 4); (ii) the explicit-hydrogen path: new hydrogen ids and h_pairs ids are allocated in
+    numeric order, so results are isomorphic, not literally renumbered; (iii) the RDKit half.  All three are exercised on
     every run: the correspondence compares the multiset of glued graphs of every writing and strategy with the
     implementation (whose VF2 order differs from the model's), the oracle compares reaction sets across writings. *)
 Theorem C05_result_set_invariant_partial :
-  forall (sg pi : N -> N), inj sg -> inj pi ->
+  forall (strat : N) (sg pi : N -> N), inj sg -> inj pi ->
   forall (host : hostg) (p : prepared), p_flag p = false ->
-    kept_of 0%N (relabel pi host) (relabel_prep sg p) = map (mv sg pi) (kept_of 0%N host p) /\
-    glued_of 0%N (relabel pi host) (relabel_prep sg p) = map (relabel pi) (glued_of 0%N host p) /\
-    results_of false 0%N (relabel pi host) (relabel_prep sg p) = option_map (map (relabel pi)) (results_of false 0%N host p).
+    kept_of strat (relabel pi host) (relabel_prep sg p) = map (mv sg pi) (kept_of strat host p) /\
+    glued_of strat (relabel pi host) (relabel_prep sg p) = map (relabel pi) (glued_of strat host p) /\
+    results_of false strat (relabel pi host) (relabel_prep sg p) = option_map (map (relabel pi)) (results_of false strat host p).
 Proof.
-  intros sg pi Hs Hp host p Hflag. split; [|split].
-  - apply kept_all_relabel; assumption.
-  - apply glued_all_relabel; assumption.
-  - apply results_all_relabel; assumption.
+  intros strat sg pi Hs Hp host p Hflag. split; [|split].
+  - apply kept_relabel; assumption.
+  - apply glued_relabel; assumption.
+  - apply results_relabel; assumption.
 Qed.
 Print Assumptions C05_result_set_invariant_partial.
 
 (** 5c. End to end from the template (implicit-hydrogen mode: SynReactor(..., implicit_temp=True, explicit_h=False), both
-    directions, exhaustive strategy, prepared pattern without explicit X-H bonds): rule preparation commutes with the
+    directions, every strategy, prepared pattern without explicit X-H bonds): rule preparation commutes with the
     renumbering of the template, hence the result list of the renumbered (substrate, template) pair is the renumbered
     result list.  Same restrictions as 5b otherwise. *)
 Theorem C05_pipeline_invariant_partial :
-  forall (sg pi : N -> N), inj sg -> inj pi ->
+  forall (strat : N) (sg pi : N -> N), inj sg -> inj pi ->
   forall (inv : bool) (host : hostg) (tpl : its) (p : prepared),
     prepare inv true tpl = Some p -> p_flag p = false ->
     prepare inv true (relabel sg tpl) = Some (relabel_prep sg p) /\
-    pipeline inv true false 0%N (relabel pi host) (relabel sg tpl)
-    = option_map (map (relabel pi)) (pipeline inv true false 0%N host tpl).
+    pipeline inv true false strat (relabel pi host) (relabel sg tpl)
+    = option_map (map (relabel pi)) (pipeline inv true false strat host tpl).
 Proof.
-  intros sg pi Hs Hp inv host tpl p Hprep Hflag. split.
+  intros strat sg pi Hs Hp inv host tpl p Hprep Hflag. split.
   - apply prepare_relabel; assumption.
-  - eapply pipeline_relabel; eassumption.
+  - eapply pipeline_relabel_any; eassumption.
 Qed.
 Print Assumptions C05_pipeline_invariant_partial.
